@@ -134,6 +134,7 @@ func flagCtxReady(s int) int     { return 16 + s }
 func flagWaitCtxReady(s int) int { return 32 + s }
 func ctrEnqDone(s int) int       { return s }
 func ctrBarrier(s int) int       { return 16 + s }
+func ctrEnded(s int) int         { return 32 + s }
 
 //go:norace
 func (sr *schedRun) bodyStart(r *runner, s, j int, ctx context.Context) {
@@ -155,6 +156,7 @@ func (sr *schedRun) bodyStart(r *runner, s, j int, ctx context.Context) {
 func (sr *schedRun) bodyEnd(r *runner, s, j int) {
 	r.log(EvEnd, s, j)
 	sr.inflight--
+	r.sim.AddCounter(ctrEnded(s), 1)
 }
 
 //go:norace
@@ -397,6 +399,15 @@ func (r *runner) caller(si int) {
 	}
 	if sim.Aborted() {
 		return // the run is over (budget, invalid, or quiescent without us): do not touch the scheduler
+	}
+	if sd.WaitAfterAll {
+		sim.Hold(engine.HoldCounter, ctrEnded(si), len(sd.Jobs))
+		for k := 0; k < 6; k++ {
+			sim.Yield(engine.HsMisc) // and a little later still
+		}
+		if sim.Aborted() {
+			return
+		}
 	}
 	wctx := ctx
 	if sd.WaitCtx != 0 {
